@@ -22,6 +22,10 @@ type Case struct {
 	Auth     bool          `json:"auth,omitempty"`
 	Msgs     []script.CMsg `json:"msgs,omitempty"`
 	BindVals []string      `json:"-"`
+	Limit    int           `json:"limit,omitempty"` // message size limit (0 = 16 KiB)
+	// BigQuery > 0: a query of that many bytes is part of the session (sizes around the limit,
+	// the TLS record size and 1 MiB): the limit is about messages, whatever the transport
+	BigQuery int `json:"big_query,omitempty"`
 }
 
 const marker = "MARKER"
@@ -37,7 +41,11 @@ func table() script.Table {
 }
 
 func (c Case) config() script.Config {
-	cfg := script.Config{TLS: c.TLS, Table: table(), SetLimit: true, Limit: 1 << 14}
+	lim := c.Limit
+	if lim == 0 {
+		lim = 1 << 14
+	}
+	cfg := script.Config{TLS: c.TLS, Table: table(), SetLimit: true, Limit: lim}
 	if c.Auth {
 		cfg.Auth = &script.AuthSpec{User: "tls-user", Pass: marker + "-PASSWORD"}
 	}
@@ -54,8 +62,19 @@ func (c Case) startup() []byte {
 
 func (c Case) session() []byte {
 	var b []byte
-	for _, m := range c.Msgs {
+	for i, m := range c.Msgs {
 		b = append(b, m.Bytes()...)
+		if i == 0 && c.BigQuery > 0 {
+			q := make([]byte, c.BigQuery-1)
+			for j := range q {
+				q[j] = byte('a' + j%26)
+			}
+			copy(q, "select big ")
+			b = append(b, pgwire.Query(string(q))...)
+		}
+	}
+	if len(c.Msgs) == 0 && c.BigQuery > 0 {
+		b = append(b, pgwire.Query(string(make([]byte, c.BigQuery-1)))...)
 	}
 	return b
 }
